@@ -61,7 +61,4 @@ Print Assumptions initial_point_is_first.
 Example vant_hoff_data_satisfiable : two_distinct [300; 250; 280] /\
   Forall2 (fun T p => vant_hoff 1 25 T (ln p)) [300; 250; 280]
           (map (fun T => exp (1 - 25 * 1000 / (gas_const * T))) [300; 250; 280]).
-Proof.
-  split; [exists 300, 250; simpl; split; [auto|split; [auto|lra]]|].
-  simpl. repeat (constructor; [split; [lra|rewrite ln_exp; reflexivity]|]). constructor.
-Qed.
+Proof. exact vant_hoff_example. Qed.
